@@ -26,11 +26,18 @@ def opts? : SX → Option Opts
     | _ => none
   | _ => none
 
+def via? : SX → Option Via
+  | .atom "own" => some .own | .atom "sibling" => some .sibling | .atom "owner" => some .owner | _ => none
+
+def name? : SX → Option NameKind
+  | .atom "plain" => some .plain | .atom "alias" => some .alias | .atom "keyword" => some .keyword
+  | .atom "camel" => some .camel | _ => none
+
 def vec? : List SX → Option Vec
-  | [k, n, r, d, t, c, o] => do
+  | [k, n, r, d, t, c, o, via, name, sc] => do
     let k ← kind? k; let n ← nullsrc? n; let r ← r.bool?; let d ← dflt? d; let t ← ty? t
-    let c ← c.bool?; let o ← opts? o
-    pure ⟨k, n, r, d, t, c, o⟩
+    let c ← c.bool?; let o ← opts? o; let via ← via? via; let name ← name? name; let sc ← sc.bool?
+    pure ⟨k, n, r, d, t, c, o, via, name, sc⟩
   | _ => none
 
 def b (x : Bool) : String := if x then "1" else "0"
@@ -45,6 +52,8 @@ def asgStr : Asg → String
   | .fieldDflt d => "Field:" ++ dv d
   | .fieldNoDefault => "Field:nodefault"
   | .factory d => "field:factory:" ++ dv d
+  | .msField none => "field:nodefault"
+  | .msField (some d) => "field:kw" ++ dv d
 
 def annStr : Ann → String
   | .no => "0" | .plain => "1" | .req => "req"
@@ -61,7 +70,7 @@ def semStr (s : Sem) : String :=
 def irStr (f : FieldRec) : String :=
   let n := match f.nullable with | none => "N" | some true => "T" | some false => "F"
   let c := match f.constraints with | .none => "none" | .empty => "empty" | .keyword => "keyword"
-  s!"req={b f.required} nullable={n} hd={b f.hasDefault} thn={b f.typeHasNull} sdn={b f.stripDefaultNone} dio={b f.dataTypeIsOptional} cons={c}"
+  s!"req={b f.required} nullable={n} hd={b f.hasDefault} thn={b f.typeHasNull} sdn={b f.stripDefaultNone} dio={b f.dataTypeIsOptional} cons={c} alias={b f.hasAlias}"
 
 def handlers : List (String × Handler) := [
   ("field.render", fun args => match vec? args with
